@@ -749,7 +749,9 @@ def validate(events, rundir, timeout=3000):
     with open(os.path.join(rundir, 'trace.ndjson'), 'w') as f:
         for e in events:
             f.write(json.dumps(e) + '\n')
+    listed = sorted({k['signature'] for k in V.load_known().get('known', []) if k['property'] in ('C11', 'C12')})
     cfg = open(os.path.join(V.SPEC, 'Trace_Proto.cfg')).read().replace('%KEYNAMES%', ', '.join('"%s"' % k for k in KEYNAMES))
+    cfg = cfg.replace('%LISTED%', ', '.join('"%s"' % k for k in listed))
     if '\n' not in cfg:
         cfg += '\n'
     r = V.tlc_run('Trace_Proto', cfg, rundir, workers=1, timeout=timeout, java=JAVA)
